@@ -14,7 +14,9 @@ LEVEL_TEXT = ("Deductive: every path of the real envelope/ping/pong/version/geth
               "var-string and fixed-width helpers is checked against independent wire-format spec functions for all field values "
               "(symbolic inputs, z3). Claimed as 'other' rather than 'proof' because one recorded finding (VersionMessage port byte "
               "order) keeps an obligation failing.  List-valued messages: getdata.serialize is proved for every number of entries "
-              "(loop invariant over a list of symbolic length, verif/contracts/listmsgs.py); the parsers of headers, cfheaders and "
-              "cfcheckpt are proved for 0..3 entries with symbolic contents and only checked at run time (bounded) for more entries; "
+              "(loop invariant over a list of symbolic length, verif/contracts/listmsgs.py); cfcheckpt.parse and cfheaders.parse "
+              "(incl. the filter-header chain of the constructor) are proved for every number of entries as well (parsing invariants: "
+              "rest of the stream == suffix of the list, parsed items == prefix); headers.parse is proved for 0..3 headers with "
+              "symbolic contents and only checked at run time (bounded) for more; "
               "cfilter.parse is proved for its message fields with the Golomb decoder (C18) stubbed out.")
 LEVEL_NOTE = "trusted: pyvc translation (A-ENGINE), spec functions (A-SPEC), CPython builtin contracts (A-BUILTIN), hash functions uninterpreted; termination not verified"
